@@ -43,3 +43,6 @@ def run(ctx):
     g = S.gradient(ctx, ent["gradient"], 1, 3)
     ok = all((g[0][c][0] + g[0][c][1] + g[0][c][2]).iszero() for c in range(2))
     r.check(ok, "p1 gradient", S.SH, ent["gradient"], 0, "p1 reference gradients sum", "reference gradients of the P1 shapeset do not sum to zero")
+    from .. import intwidth
+
+    intwidth.int_narrowing(ctx)  # index / offset arrays must not wrap
